@@ -242,8 +242,35 @@ def limits_for(levels, rng) -> list[int]:
     return sorted(out)
 
 
+def sibling_cases(ctx: core.Ctx, rng):
+    # sibling nests: a complete nest (often of length zero) rendered just before some level of the main nest
+    for _ in range(ctx.budget(2500, 40_000)):
+        d = rng.choice([1, 2, 2, 3])
+        levels = []
+        for _i in range(d):
+            k = rng.choice(REPEATING * 2 + CARRIERS)
+            levels.append([k, rng.choice([1, 2, 3, 5, 12]) if k in REPEATING else 1])
+        if not valid(levels) or not any(k in REPEATING for k, _ in levels):
+            continue
+        at = rng.randrange(d + 1)
+        sl = []
+        for _i in range(rng.choice([1, 1, 2])):
+            k = rng.choice(REPEATING * 3 + ["if", "capture"])
+            sl.append([k, rng.choice([0, 0, 1, 2, 3]) if k in REPEATING else 1])
+        if not valid(levels[:at] + sl) or not any(k in REPEATING for k, _ in sl):
+            continue
+        for lim in limits_for(levels, rng):
+            # the sibling itself must stay within the limit where it stands, else it would (rightly) raise first
+            if expectation(levels[:at] + sl, lim)[0]:
+                continue
+            # the main nest's marker count is unaffected by the sibling ('y' markers)
+            yield {"levels": levels, "limit": lim, "sibling": {"at": at, "levels": sl}, "async": rng.random() < 0.1}
+
+
 def cases(ctx: core.Ctx):
     rng = ctx.rng("cases")
+    # first, so that the time cap of the thorough tier (spent mostly on the exhaustive enumeration) cannot starve them
+    yield from sibling_cases(ctx, ctx.rng("siblings"))
     idx = 0
     LENS = [0, 1, 2, 3, 5, 12]
     maxd = 2 if ctx.tier == "quick" else 3
@@ -276,25 +303,3 @@ def cases(ctx: core.Ctx):
             continue
         for lim in limits_for(levels, rng):
             yield {"levels": levels, "limit": lim, "async": rng.random() < 0.1}
-    # sibling nests: a complete nest (often of length zero) rendered just before some level of the main nest
-    for _ in range(ctx.budget(2500, 400_000)):
-        d = rng.choice([1, 2, 2, 3])
-        levels = []
-        for _i in range(d):
-            k = rng.choice(REPEATING * 2 + CARRIERS)
-            levels.append([k, rng.choice([1, 2, 3, 5, 12]) if k in REPEATING else 1])
-        if not valid(levels) or not any(k in REPEATING for k, _ in levels):
-            continue
-        at = rng.randrange(d + 1)
-        sl = []
-        for _i in range(rng.choice([1, 1, 2])):
-            k = rng.choice(REPEATING * 3 + ["if", "capture"])
-            sl.append([k, rng.choice([0, 0, 1, 2, 3]) if k in REPEATING else 1])
-        if not valid(levels[:at] + sl) or not any(k in REPEATING for k, _ in sl):
-            continue
-        for lim in limits_for(levels, rng):
-            # the sibling itself must stay within the limit where it stands, else it would (rightly) raise first
-            if expectation(levels[:at] + sl, lim)[0]:
-                continue
-            # the main nest's marker count is unaffected by the sibling ('y' markers)
-            yield {"levels": levels, "limit": lim, "sibling": {"at": at, "levels": sl}, "async": rng.random() < 0.1}
